@@ -506,6 +506,24 @@ def run(tier, seed, replay=None):
                         "real lock-order deadlocks and use-after-free are runtime facts: observed by the watchdog and the sanitizers on the scenarios run, not proved",
                         "the model covers one socket with its children; the reaper is a FIFO (the C empties one LIFO stack per object type in rounds)",
                         "transport contract: no pipe is created on an endpoint after its transport-level close (checked in tcp/ipc/inproc/vtran by reading)"]
+    # ---- directed: a device cancelled under traffic, then more sends and the closes (found by C03's real-transport
+    #      programs): the reaper can wait for ever for a pipe's send aio whose task stays busy.  Schedule-dependent.
+    led, lerr = wb_build(bdir, "wb_ledger.c")
+    hang_script = os.path.join(VERIF, "findings", "c03", "device_cancel_reaper_hang.txt")
+    nprobe = 8 if tier == "quick" else 60
+    hangs = 0
+    if led and os.path.exists(hang_script):
+        txt = open(hang_script).read()
+        for i in range(nprobe):
+            try:
+                subprocess.run([led], input=txt, capture_output=True, text=True, timeout=12, env=dict(os.environ, **ASAN_ENV))
+            except subprocess.TimeoutExpired:
+                hangs += 1
+        rep.cov["evaluations"] += nprobe
+        rep.cov["device_cancel_probe"] = {"runs": nprobe, "hangs": hangs}
+        if hangs:
+            pth = rep.replay_file("device_cancel_hang.txt", "%d of %d runs of findings/c03/device_cancel_reaper_hang.txt (through harness/wb_ledger) did not return within 12 s\n" % (hangs, nprobe) + txt)
+            rep.violation(pth, "closing the sockets of a device that was cancelled under traffic never returns: the reaper waits in <proto>_pipe_stop -> nni_aio_stop for a pipe's send aio (%d of %d runs)" % (hangs, nprobe), key="device-cancel-reaper-hang")
     if not proof_ok and not rep.violations:
         proof_broken_report(rep, cb, "C10 theorems do not check (%s)" % ("; ".join(gate[:3]) if gate else msg if not ok else "see log"))
     return rep.finish()
